@@ -32,6 +32,7 @@ fn main() {
             Some("control") => (Phase::Control, "C18"),
             Some("modeticks") => (Phase::ModeTicks, "C06"),
             Some("handshake") => (Phase::Handshake, "C07"),
+            Some("weakstats") => (Phase::WeakStats, "C17"),
             Some("reloadearly") => (Phase::ReloadEarly, "C19"),
             Some("recovery") => (Phase::Recovery, "C08"),
             Some("recovery4") => (Phase::RecoveryEligibility, "C04"),
